@@ -95,6 +95,12 @@ let run_job id op (lines : line list) =
   end else if String.length op > 7 && String.sub op 0 7 = "append:" then begin
     let n = int_of_string (String.sub op 7 (String.length op - 7)) in
     out "ok" "-" (append_code [] lines (n_of_int n))
+  end else if String.length op > 7 && String.sub op 0 7 = "csleep:" then begin
+    let n = int_of_string (String.sub op 7 (String.length op - 7)) in
+    let z = if n = 0 then Z0 else if n > 0 then Zpos (pos_of_int n) else Zneg (pos_of_int (-n)) in
+    match csleep_code z with
+    | Some l -> out "ok" "-" (List.map (fun i -> Ins i) l)
+    | None -> out "error" "-" []
   end else
     out "ok" "-" lines
 
